@@ -37,6 +37,13 @@ C16_Items == {It(k, d, "none", 0, FALSE, 0, doc) : k \in {"def", "adef", "class"
 Clause_Items == {It(k, d, "none", 0, FALSE, 0, NoDoc) : k \in ClauseKinds \cup {"try"}, d \in 0..1}
                 \cup {It(k, d, "none", 0, FALSE, 0, Free1) : k \in {"def", "adef", "class"}, d \in 0..2}
                 \cup {It("class", 0, "none", 0, FALSE, 0, NoDoc), It("def", 1, "static", 0, FALSE, 0, Free1), It("ifmain", 0, "none", 0, FALSE, 0, NoDoc)}
+                \* a property whose setter / deleter carries a further decorator (written above or below the .setter line)
+                \cup {It("def", 1, "property", 0, FALSE, 0, Free1), It("def", 1, "setter", 1, FALSE, 0, Free1), It("def", 1, "deleter", 1, FALSE, 0, NoDoc)}
+
+\* ---- properties: getter, setter, deleter (with and without a further decorator, with and without docstrings) in one class
+Setter_Items == {It("class", 0, "none", 0, FALSE, 0, NoDoc), It("def", 1, "none", 0, FALSE, 0, Free1)}
+                \cup {It("def", 1, "property", 0, FALSE, 0, doc) : doc \in {Free1, Goog1}}
+                \cup {It("def", 1, deco, nd, FALSE, 0, doc) : deco \in {"setter", "deleter"}, nd \in 0..1, doc \in {NoDoc, Free1}}
 
 \* a core alphabet for longer modules (4 items)
 C16_Core == {It(k, d, "none", 0, FALSE, 0, doc) : k \in {"def", "class"}, d \in 0..2, doc \in {NoDoc, Free1}}
